@@ -137,9 +137,12 @@ def main(argv):
         tb = traceback.format_exc()
         print(tb)
         ctx._rec('ENGINE', 'exception', 'VIOLATION', tb[-1500:], None, 'ENGINE:exception')
-    if tier == 'thorough' and hasattr(mod, 'run_thorough'):
+    if tier == 'thorough':
         try:
-            mod.run_thorough(ctx)
+            from . import thorough
+            thorough.run(ctx, mod, Ctx)
+            if hasattr(mod, 'run_thorough'):
+                mod.run_thorough(ctx)
         except Exception:
             tb = traceback.format_exc()
             print(tb)
